@@ -1408,6 +1408,47 @@ pub fn stream(r: &mut Rng, n: usize, opt_num: usize, opt_den: usize, tiny: bool)
     Stream::from_texts(entries, texts, None)
 }
 
+/// A stream of small entries in which one blank-line separator straddles
+/// the byte offset `target` (+ `shift`): the first of its two newlines is the
+/// byte in front of that offset, the second the byte at it.  (A pending
+/// buffer that is a ring, a block list or a paged file has a physical seam
+/// at such offsets; a separator lying across it must still be seen.)  About
+/// a dozen further entries follow.
+pub fn aligned_stream(r: &mut Rng, target: usize, shift: isize) -> Stream {
+    let at = (target as isize + shift).max(1400) as usize;
+    let mut entries: Vec<Entry> = vec![];
+    let mut texts: Vec<String> = vec![];
+    let mut total = 0usize;
+    let mut k = 0usize;
+    let mut done = false;
+    let mut after = 0;
+    while after < 12 {
+        let mut e = compact_model(r, 1, 3, k % 3 == 0, k % 2 == 0);
+        e.set(os::PKGNAME, Val::S(format!("al{}-{}.{}", k % 5, k, k % 7)));
+        let mut t = e.print();
+        if !done && total + 1000 > at {
+            // this entry has to end exactly at `at + 1`: lengthen its COMMENT
+            let need = (at + 1).saturating_sub(total + t.len() + 1);
+            let c = match e.get(os::COMMENT) {
+                Some(Val::S(c)) => c.clone(),
+                _ => String::new(),
+            };
+            e.set(os::COMMENT, Val::S(format!("{c}{}", "x".repeat(need))));
+            t = e.print();
+            assert!(total + t.len() + 1 == at + 1, "harness bug: aligned_stream missed its offset");
+            done = true;
+        }
+        total += t.len() + 1;
+        if done {
+            after += 1;
+        }
+        entries.push(e);
+        texts.push(t);
+        k += 1;
+    }
+    Stream::from_texts(entries, texts, None)
+}
+
 /// A larger stream built from the full value generator (<= ~8 KiB).
 pub fn big_stream(r: &mut Rng, n: usize) -> Stream {
     let mut entries: Vec<Entry> = vec![];
